@@ -45,6 +45,8 @@ pub struct Case {
   /// the conversion hangs on `subject.share()` / `share_threads()` instead of the subject itself;
   /// an earlier `take(1)` subscriber of the share has already been served and has finished
   pub via_share: bool,
+  /// the conversion is attached to a cold synchronous source that plays the whole script at subscription
+  pub cold: bool,
 }
 
 fn script_of(c: &Case) -> Vec<N> {
@@ -77,7 +79,7 @@ fn inject<S: Observer<V, E> + Clone>(s: &mut S, n: &N) {
 }
 
 macro_rules! drive {
-  ($subj:ty, $boxty:ty, $share:ident, $c:expr) => {{
+  ($subj:ty, $boxty:ty, $share:ident, $subscriber:ident, $c:expr) => {{
     let c: &Case = $c;
     let mut subj = <$subj>::default();
     let _bystander = match c.bystander {
@@ -90,7 +92,28 @@ macro_rules! drive {
     };
     // what the conversion is attached to: the subject itself, or a share of it whose first
     // subscriber (take(1)) has been served by one item and is finished
-    let conv_src: $boxty = if c.via_share {
+    let script = script_of(c);
+    let conv_src: $boxty = if c.cold {
+      // a cold synchronous source: the whole script is delivered inside the conversion's own
+      // subscription, before the first poll
+      let sc = script.clone();
+      create(move |mut s: $subscriber<_>| {
+        for n in sc.iter() {
+          match n {
+            N::Next(v) => s.next(v.clone()),
+            N::Err(e) => {
+              s.error(*e);
+              return;
+            }
+            N::Complete => {
+              s.complete();
+              return;
+            }
+          }
+        }
+      })
+      .box_it()
+    } else if c.via_share {
       let b: $boxty = subj.clone().box_it();
       let sh = b.$share();
       std::mem::forget(sh.clone().take(1).actual_subscribe(Probe::new(901, &Log::new())));
@@ -99,8 +122,10 @@ macro_rules! drive {
     } else {
       subj.clone().box_it()
     };
-    let script = script_of(c);
-    let term_pos = c.steps.iter().position(|s| matches!(s, Step::Ev(n) if n.is_terminal()));
+    // cold: only the polls remain as steps, numbered from 1, and the terminal (if any) lies before all of them
+    let off = if c.cold { 1 } else { 0 };
+    let steps: Vec<Step> = if c.cold { c.steps.iter().filter(|s| matches!(s, Step::Poll)).cloned().collect() } else { c.steps.clone() };
+    let term_pos = if c.cold { script.last().filter(|n| n.is_terminal()).map(|_| 0usize) } else { c.steps.iter().position(|s| matches!(s, Step::Ev(n) if n.is_terminal())) };
     // every poll uses a waker of its own (a future that moves between tasks is polled with
     // different wakers); the one handed over by the most recent pending poll is the one owed a wake-up
     let wakers: std::rc::Rc<std::cell::RefCell<Vec<Arc<CountWaker>>>> = Default::default();
@@ -137,7 +162,8 @@ macro_rules! drive {
           }
           r
         };
-        for (i, st) in c.steps.iter().enumerate() {
+        for (i, st) in steps.iter().enumerate() {
+          let i = i + off;
           match st {
             Step::Ev(n) => inject(&mut subj, n),
             Step::Poll => {
@@ -218,7 +244,8 @@ macro_rules! drive {
           }
         };
         let mut last_pending_wakes: Option<usize> = None;
-        for (i, s) in c.steps.iter().enumerate() {
+        for (i, s) in steps.iter().enumerate() {
+          let i = i + off;
           match s {
             Step::Ev(n) => inject(&mut subj, n),
             Step::Poll => {
@@ -281,8 +308,9 @@ macro_rules! drive {
             None
           }
         };
-        let mut injected: Vec<N> = vec![];
-        for (i, s) in c.steps.iter().enumerate() {
+        let mut injected: Vec<N> = if c.cold { script.clone() } else { vec![] };
+        for (i, s) in steps.iter().enumerate() {
+          let i = i + off;
           match s {
             Step::Ev(n) => {
               inject(&mut subj, n);
@@ -316,7 +344,7 @@ macro_rules! drive {
 }
 
 pub fn observe(c: &Case) -> Result<Obs, String> {
-  catch(|| if c.threads { drive!(SubjectThreads<V, E>, rxrust::ops::box_it::BoxOpThreads<V, E>, share_threads, c) } else { drive!(Subject<'static, V, E>, rxrust::ops::box_it::BoxOp<'static, V, E>, share, c) })
+  catch(|| if c.threads { drive!(SubjectThreads<V, E>, rxrust::ops::box_it::BoxOpThreads<V, E>, share_threads, SubscriberThreads, c) } else { drive!(Subject<'static, V, E>, rxrust::ops::box_it::BoxOp<'static, V, E>, share, Subscriber, c) })
 }
 
 // --------------------------------------------------------------------------
@@ -419,7 +447,7 @@ pub fn random_case(r: &mut Rng, max_items: usize) -> Case {
   for _ in 0..r.below(3) {
     steps.push(Step::Poll);
   }
-  Case { conv, steps, threads: r.chance(1, 2), bystander: [0, 0, 1, 2][r.below(4)], via_share: r.chance(1, 4) }
+  Case { conv, steps, threads: r.chance(1, 2), bystander: [0, 0, 1, 2][r.below(4)], via_share: r.chance(1, 4), cold: r.chance(1, 6) }
 }
 
 pub fn run(cfg: &Cfg, rep: &mut Report) {
@@ -484,8 +512,11 @@ pub fn run(cfg: &Cfg, rep: &mut Report) {
     rep.evaluations += 1;
     let o = observe(&c);
     rep.set("conversions_covered", &format!("{:?}", c.conv));
-    if c.via_share {
+    if c.via_share && !c.cold {
       rep.count("conversions_attached_through_a_share", 1);
+    }
+    if c.cold {
+      rep.count("conversions_of_a_cold_synchronous_source", 1);
     }
     let script = script_of(&c);
     let term = script.last().filter(|n| n.is_terminal()).cloned();
